@@ -1,6 +1,50 @@
-"""C14 — debug symbols are behaviour-neutral (a) [markers: (b) is checked once the front-end model predicts call ids]."""
+"""C14 — debug symbols are behaviour-neutral (a) and point at the right call (b)."""
 from framework import *  # noqa
 import corelib
+
+
+def markers(chk, acc):
+    """(b): every marker of the debug build resolves to text and kind of exactly one tracked call site; distinct sites, distinct markers"""
+    import layout
+    variants = []
+    for g in acc:
+        r = chk.sub_rng("lay/" + g.label)
+        variants.append((g, g.text))
+        variants.append((g, layout.relayout(r, g.text, crlf=False, comments=True)))
+    args = [corelib.bindings_sx([(n, v) for (n, _, v) in g.params]) for g, _ in variants]
+    calls = impl("core", ["(calls %s)" % quote(t) for _, t in variants])
+    syms = impl("core", ["(dbgsyms %s %s)" % (quote(t), a) for (_, t), a in zip(variants, args)])
+    for (g, text), c, sy, a in zip(variants, calls, syms, args):
+        ln = "(dbgsyms %s %s)" % (quote(text), a)
+        if not c.startswith("(ok") or not sy.startswith("(ok"):
+            if c.startswith("PANIC") or sy.startswith("PANIC"):
+                chk.violation({"class": "debug-symbols-panic", "what": (c + sy)[:200]}, {"cmd": "core", "line": ln, "implementation": sy, "broken": "debug symbol extraction panicked"})
+            continue
+        cl = parse_sx(c)[1:]
+        spans = sorted({(k, sl, sc, el, ec) for (k, sl, sc, el, ec) in cl})
+        pred = model("span", ["(trackedlc %s %s %s %s %s)" % (quote(text), sl, sc, el, ec) for (_, sl, sc, el, ec) in spans])
+        want = sorted((parse_sx(p) if p.startswith('"') else p, k) for (k, _, _, _, _), p in zip(spans, pred))
+        ms = parse_sx(sy)[1:]
+        got = []
+        unresolved = 0
+        for m in ms:
+            if m[1] == "UNRESOLVED":
+                unresolved += 1
+            else:
+                got.append((m[1], m[2].split(":")[0]))
+        got.sort()
+        chk.case(ln, sample={"program": text[:200], "markers": got[:4]})
+        chk.count("markers.sites", len(spans))
+        base = {"cmd": "core", "line": ln, "program": text, "implementation": sy[:1500], "expected": str(want)[:1500]}
+        if unresolved:
+            chk.violation({"class": "marker-unresolved", "what": "%d markers of the debug build are not in debug_symbols() || %s" % (unresolved, text[:160])},
+                          dict(base, broken="an embedded debug marker does not resolve through debug_symbols()"))
+        elif len(ms) != len(spans):
+            chk.violation({"class": "marker-count", "what": "%d markers for %d tracked call sites || %s" % (len(ms), len(spans), text[:160])},
+                          dict(base, broken="distinct call sites must get distinct markers, one each"))
+        elif got != want:
+            chk.violation({"class": "marker-text", "what": "markers resolve to %s, call sites are %s" % (str(got)[:150], str(want)[:150])},
+                          dict(base, broken="a marker does not resolve to the source text and kind of its call site (C14b_to_slice_correct + correspondence)"))
 
 
 def run(chk, replay=None):
@@ -30,5 +74,6 @@ def run(chk, replay=None):
                               {"program": g.text, "witness": corelib.bindings_sx(a), "plain": d[0][3], "debug": d[1][3],
                                "broken": "the debug build and the plain build disagree on success (C14_debug_neutral + correspondence)"})
     chk.extra["pairs_compared"] = n
+    markers(chk, acc)
     chk.extra["rule"] = ("generated programs biased towards dbg!/assert!/unwrap*/jet calls x witness assignments; each (program, witness) is run with include_debug_symbols "
                          "off and on through satisfy/encode/decode/Bit Machine and both outcomes are compared with each other and with the source semantics")
